@@ -92,18 +92,6 @@ Definition data_readonly (f : pframe) : bool :=
 Definition all_readonly (f : pframe) : bool :=
   data_readonly f && negb (pa_writeable (pf_index_positions f)) && negb (pa_writeable (pf_columns_positions f)).
 
-(* "an equal Frame" (Frame.equals): same labels, values equal under Python == with NaN matching NaN;
-   the dtype is not part of it *)
-Definition val_sim (a b : val) : bool :=
-  match a, b with
-  | VNaN, VNaN => true
-  | _, _ => py_val_eq a b
-  end.
-Definition frame_sim (a b : tframe) : bool :=
-  labels_eqb (tf_index a) (tf_index b) && labels_eqb (tf_columns a) (tf_columns b) &&
-  list_eqb (fun x y => list_eqb val_sim (snd x) (snd y)) (tf_cols a) (tf_cols b).
-Definition obs_sim (a b : res tframe) : bool := res_eqb frame_sim a b.
-
 (* comparison helpers for the correspondence cases *)
 Definition pairs_eqb : list (label * list (label * val)) -> list (label * list (label * val)) -> bool :=
   list_eqb (pair_eqb (list_eqb val_eqb) (list_eqb (pair_eqb (list_eqb val_eqb) val_eqb))).
